@@ -1,11 +1,41 @@
 """Per-property claim texts for MANIFEST.json."""
 HOOK_COMMITS = []
 ENGINES = [
-    {"name": "schemamc", "path": "harness/src/bin/schemamc.rs", "serves_properties": ["C02"],
+    {"name": "seqmc", "path": "harness/src/bin/seqmc.rs", "serves_properties": ["C01", "C16"],
+     "kind_free_text": "bounded-exhaustive insertion sequences driven through the real content-pack creators (bare, OneFile, TwoFiles, NoConcat; direct and deduplicating adder) against a reference model (list of byte strings + abstract creator state validated through Progress callbacks); C16 observes the produced bytes with an independent decoder"},
+    {"name": "schemamc", "path": "harness/src/bin/schemamc.rs", "serves_properties": ["C02", "C03", "C15"],
      "kind_free_text": "bounded-exhaustive enumeration of schemas x entry sets on the real DirectoryPackCreator, read back through the real reader, compared with the reference model (the entries as given)"},
 ]
 NOT_YET = {}
 CLAIMS = {
+    "C01": {
+        "engine": "seqmc c01",
+        "technique": "explicit enumeration of all operation sequences up to a depth bound from initial and non-initial creator states, each trace executed on the real creator and compared step by step with a reference model",
+        "text": "All insertion sequences up to depth 2 (full alphabet x reduced alphabet) and 3 (reduced alphabet) over length x entropy x hint x source, from the empty state and from pre-states on both sides of every split rule (4093..4095 blobs per slot, width boundaries, 4 MiB), for 4 compressions (11 levels in thorough) x {direct, deduplicating} x {bare, OneFile, TwoFiles, NoConcat}: returned address, content count, every content's bytes, None past the count, check(); the abstract creator state machine (slots, cluster ids) is validated against the implementation's Progress callbacks on every trace.",
+        "design_ref": "DESIGN.md §4 C01",
+        "note": "Bounded depth and boundary alphabets; contents above 16 MiB and packs above 2^20 clusters are out of reach; worker scheduling is C08's.",
+    },
+    "C16": {
+        "engine": "seqmc c16",
+        "technique": "bounded-exhaustive operation sequences on the real creator, output bytes decoded by an independent decoder",
+        "text": "Every sequence of length <=3 (thorough <=4) over {low-entropy A, high-entropy B, A again, empty} x {Yes,No,Detect} for {none,lz4,lzma,zstd} x {direct,cached} plus incompressible contents at byte-width boundaries: cluster compression byte, verbatim bytes for uncompressed storage, independent decompression for compressed storage, address sharing and stored count under the deduplicating adder.",
+        "design_ref": "DESIGN.md §4 C16",
+        "note": "The independent decoder lives in the harness (Rust, own CRC-32C); zstd/lz4/xz2 codec crates are trusted.",
+    },
+    "C03": {
+        "engine": "schemamc c03",
+        "technique": "bounded-exhaustive key sets x windows x probes on the real creator/reader, plus exhaustive enumeration of find() on all short sorted sequences",
+        "text": "Every subset (size<=3, thorough<=4) of a 40-key universe built to collide on the inline prefix and on trailing 0x00, x prefix {0..3} x {plain,indexed} x 3 insertion orders; integer and two-column keys; every window x every probe x {binary, linear}: order under the reader's own comparison and under byte order, found iff written inside the window, modes agree; find() alone on all non-decreasing sequences over 0..4 up to length 6 x all windows x probes.",
+        "design_ref": "DESIGN.md §4 C03",
+        "note": "Key alphabet {00,61,ff}; rayon sort schedules are configurations (1,2,16 threads) on large structured sets, not enumerated.",
+    },
+    "C15": {
+        "engine": "schemamc c15",
+        "technique": "exhaustive enumeration of reference graphs x insertion orders on the real creator/reader",
+        "text": "All (n+1)^n reference functions x n! insertion orders x {sorted,unsorted} x {alone, next to another column} for n<=4 (thorough n<=5), references given as the Bound returned by add_entry or a Vow for forward references; structured graphs at n in {32,300,1000,20000} x 3 key arrangements (incl. few targets moving across the 1-byte boundary): stored value == final position of the target, handle == final position.",
+        "design_ref": "DESIGN.md §4 C15",
+        "note": "rayon schedules of the parallel sort/index assignment are configurations (1,2,16 threads); Relaxed atomics of Vow/Bound are not explored under weak memory.",
+    },
     "C02": {
         "engine": "schemamc c02",
         "technique": "bounded-exhaustive input enumeration (boundary alphabets x depth) on the real creator+reader against a reference model",
